@@ -122,6 +122,39 @@ func errStr(e error) string {
 	return e.Error()
 }
 
+// separate checks that the values handed out by GenerateKey are the caller's own and independent:
+// the caller overwrites the public key (then the value Public() returns), and the private key
+// must still be crypto/ed25519's and still sign like it.
+func separate(pub ed.PublicKey, priv ed.PrivateKey, want stded.PrivateKey) *mc.Viol {
+	for i := range pub {
+		pub[i] ^= 0xA5
+	}
+	if !bytes.Equal(priv, want) {
+		return &mc.Viol{Sig: "GenerateKey returns a public key that shares memory with the private key", What: fmt.Sprintf("after the caller overwrote the returned public key the private key is %x, crypto/ed25519's %x", []byte(priv), []byte(want))}
+	}
+	var p2 ed.PublicKey
+	if pk, ok := priv.Public().(ed.PublicKey); ok {
+		p2 = pk
+	} else {
+		return &mc.Viol{Sig: "PrivateKey.Public does not return a PublicKey", What: fmt.Sprintf("%T", priv.Public())}
+	}
+	for i := range p2 {
+		p2[i] ^= 0x5A
+	}
+	if !bytes.Equal(priv, want) {
+		return &mc.Viol{Sig: "PrivateKey.Public returns a value that shares memory with the private key", What: fmt.Sprintf("after the caller overwrote it the private key is %x, crypto/ed25519's %x", []byte(priv), []byte(want))}
+	}
+	msg := []byte("message signed after the caller reused its public key buffer")
+	var sig []byte
+	if pn := mc.Catch(func() { sig = ed.Sign(priv, msg) }); pn != "" {
+		return &mc.Viol{Sig: "Sign panics on a freshly generated key", What: pn}
+	}
+	if !bytes.Equal(sig, stded.Sign(want, msg)) {
+		return &mc.Viol{Sig: "Sign with a freshly generated key differs from crypto/ed25519", What: fmt.Sprintf("sig %x", sig)}
+	}
+	return nil
+}
+
 // checkGen returns the violation (if any), the read log of the reference run and the outcome class.
 func checkGen(p genP) (*mc.Viol, []mc.Rec, string) {
 	if p.Nil {
@@ -136,6 +169,9 @@ func checkGen(p genP) (*mc.Viol, []mc.Rec, string) {
 		pub2, priv2, err2 := stded.GenerateKey(nil)
 		if err1 != nil || err2 != nil || !bytes.Equal(pub1, pub2) || !bytes.Equal(priv1, priv2) {
 			return &mc.Viol{Sig: "GenerateKey(nil) differs from crypto/ed25519 on the same crypto/rand stream", What: fmt.Sprintf("label=%s err=%v/%v fork=%x std=%x", p.Label, err1, err2, []byte(priv1), []byte(priv2))}, nil, "differs"
+		}
+		if v := separate(pub1, priv1, priv2); v != nil {
+			return v, nil, "aliased"
 		}
 		return nil, nil, "genkey:rand.Reader:same-key"
 	}
@@ -170,6 +206,9 @@ func checkGen(p genP) (*mc.Viol, []mc.Rec, string) {
 	wantSeed := mc.Fill(p.Seed, p.Label, 32)
 	if !bytes.Equal(priv1, stded.NewKeyFromSeed(wantSeed)) || !bytes.Equal(pub1, priv1[32:]) {
 		return &mc.Viol{Sig: "GenerateKey result depends on how the entropy reads were chunked", What: desc}, f2.Log, "differs"
+	}
+	if v := separate(pub1, priv1, priv2); v != nil {
+		return v, f2.Log, "aliased"
 	}
 	cls := "genkey:ok:full-read"
 	if len(p.Devs) > 0 {
